@@ -189,14 +189,15 @@ def job_cubic_interpolate(seed, N, bc):
 
 
 def replay_periodic(obs):
-    bad = [o for o in obs if o['status'] == core.REFUTED and 'periodic' in o['id']]
+    bad = [o for o in obs if o['status'] == core.REFUTED]
     if not bad:
         return
     try:
         exe = native.build('C12.periodic', open(os.path.join(CDIR, 'replay_periodic.cc')).read(),
                            ['tools/src/libtools/cubicspline.cc', 'tools/src/libtools/spline.cc', 'tools/src/libtools/linalg.cc'])
-        rc, out, err = native.execute(exe, [])
-        rep = {'reproduced': rc == 1, 'cmd': exe, 'rc': rc, 'stdout': out[-1200:], 'stderr': err[-400:], 'against': 'real CubicSpline (cubicspline.cc, spline.cc) with ASan+UBSan'}
+        mode = 'periodic' if any('periodic' in o['id'] for o in bad) else 'natural'
+        rc, out, err = native.execute(exe, [mode])
+        rep = {'reproduced': rc == 1, 'cmd': exe + ' ' + mode, 'rc': rc, 'stdout': out[-1200:], 'stderr': err[-400:], 'against': 'real CubicSpline (cubicspline.cc, spline.cc) with ASan+UBSan'}
     except core.Undecided as e:
         rep = {'reproduced': False, 'error': str(e)}
     for o in bad:
